@@ -152,6 +152,27 @@ def r1_two_directions(run):
               "every reverse entry of the user and then the forward entry are "
               "deleted", "remove_local no longer deletes both directions",
               rl.loc())
+    # an entry that cannot be deleted (stale / empty token left by
+    # remove_remote) must not abort the removal of the others and of the
+    # user's own record
+    if loops and outer:
+        on = lcfg.node_of_stmt(outer[0])
+        body = {id(x) for st in loops[0].body for x in ast.walk(st)}
+        twins = [n for n in lcfg.nodes if n.kind == "exc" and
+                 id(n.ast) in body]
+        wit = None
+        for tw in twins:
+            # (the delete is "reached" whether it succeeds or raises itself)
+            reached = {n.id for n in lcfg.nodes if n.ast is outer[0]}
+            wit = wit or lcfg.path(tw.id, lcfg.return_exit, reached)
+        run.check(wit is None and bool(twins), "R1",
+                  rl.qual + "::entry-failure-does-not-abort",
+                  "after a failing entry the loop goes on / the user's own "
+                  "record is still deleted",
+                  "a KeyError for one stored entry ends remove_local normally "
+                  "without deleting the user's record: the ids keep resolving",
+                  rl.loc(outer[0]),
+                  witness=lcfg.describe_path(wit) if wit else None)
 
 
 def code_is_injective(run, rule):
@@ -646,3 +667,5 @@ def check(run):
     r6_no_undefined_names(run)
     r7_mapping_request_scope(run)
     r8_find_nameid_all_criteria(run)
+    from ..common_rules import shared_state_rule
+    shared_state_rule(run, "R9", {"ident"}, "identifier database operations")
